@@ -8,6 +8,7 @@ from h5 import gen, lean, wire
 
 ID = "C20"
 PROPS_MODULE = "H5.Props.C20"
+EXTRA_PROPS_MODULES = ["H5.Props.C20b"]
 GEN_MODULES = ["Infoset"]
 CORRESPONDENCE_OPS = ["xml:toXmlName", "xml:fromXmlName", "xml:comment", "xml:pubid", "xml:chars", "xml:attr"]
 SOURCES = ["html5lib/_ihatexml.py"]
